@@ -220,7 +220,7 @@ def find_local_clifford_layer(R: np.ndarray, S: np.ndarray, graph: Graph) -> Opt
     # O(2^(2n)) algorithm
     rank = kernel.shape[0]
     combinations = np.arange(2**rank)
-    combinations = np.array([i for i in itertools.product([0, 1], repeat=rank)])
+    combinations = np.array([i for i in itertools.product([0, 1], repeat=rank)], dtype=np.int8)
     cc = f2.mat_mul(combinations, np.array(kernel))
 
     for row in cc:
